@@ -44,6 +44,7 @@ type genCtx struct {
 	verbose  bool
 	only     map[string]string // replay filter: mode / d / hooks
 	onlyOp   int
+	strict   bool // the current fixture's baseline must agree with the monolith (Fixture.StrictBaseline)
 	fixture  bool // the hand-written stream: every run also under the loader's other pre-fetch hooks
 	hookHist map[string]int
 }
@@ -149,6 +150,8 @@ func (g *genCtx) runOpsIdx(fx *c14lab.Fix, idPrefix string, ops []*c14lab.Op, id
 			if strings.HasPrefix(c.Skip, "lab") {
 				g.st.labErrors++
 				g.out.Line(common.L("c14", "op", id, common.L("laberror", common.QS(c.Skip))))
+			} else if g.strict && strings.HasPrefix(c.Skip, "baseline") {
+				g.out.Line(common.L("c14", "baseline", id, common.L("reason", common.QS(c.Skip)), common.L("text", common.QS(c.Text))))
 			} else {
 				g.out.Line(common.L("c14", "skip", id, common.L("reason", common.QS(c.Skip)), common.L("text", common.QS(c.Text))))
 			}
@@ -363,6 +366,7 @@ func cmdFixture(a map[string]string) {
 			continue
 		}
 		cfg, uni := f.Build()
+		g.strict = f.StrictBaseline
 		g.st.cfgs++
 		var ops []*c14lab.Op
 		for _, t := range f.Ops {
